@@ -12,7 +12,7 @@ def work(spec):
 def run(tier, seed):
     specs = []
     for fam, step in (("f_plain", 2 if tier == "quick" else 1), ("f_shape", 4 if tier == "quick" else 6),
-                      ("f_occ", 3 if tier == "quick" else 1), ("f_affine", 1), ("f_cascade", 1)):
+                      ("f_occ", 3 if tier == "quick" else 1), ("f_affine", 1), ("f_cascade", 1), ("f_rand", 1)):
         ss = getattr(specgen, fam)(tier, seed)
         keep = [x for x in ss if (x.get("tags") or {}).get("core")]
         specs += keep + [x for x in ss[seed % step::step] if x not in keep]
